@@ -27,6 +27,7 @@ FORBIDDEN = re.compile(r"\bsorry\b|\badmit\b|^\s*axiom\s|native_decide|bv_decide
 TRUSTED_BASE = [
     "Lean 4.33.0 kernel (theorems re-checked by `lake build` on every run; axioms audited per theorem: subset of propext, Classical.choice, Quot.sound)",
     "tools/translate.py (Python ast/import introspection) for the generated constants and tables in lean/MotoModel/Gen",
+    "tools/pyfun2lean.py: expression-level translation of eight pure functions to Gen/Fn.lean (Python ints as Nat with truncated subtraction; a function outside the subset falls back to the model function and is listed as not translated)",
     "the correspondence check (this harness): hand-written model functions are compared with the Python functions on generated inputs only",
     "compiled driver motodrv (Lean compiler + C toolchain) is used as a tester only; no theorem depends on it",
     "CPython semantics of the primitives modelled in Model/Py.lean; POSIX path resolution; UTF-8 locale",
@@ -189,6 +190,12 @@ def ensure_build(prop, thorough=False):
         for k, v in b.translator.items():
             if v.startswith("FAILED"):
                 b.translator_failed.append(f"translator {k}: {v}")
+        try:
+            fn = open(os.path.join(LEAN, "MotoModel", "Gen", "Fn.lean")).read()
+            m = re.search(r"def translated .*:= \[(.*)\]", fn)
+            b.translator["functions_translated_from_source"] = dict((n, ok == "true") for n, ok in re.findall(r'\("(\w+)", (true|false)\)', m.group(1)))
+        except Exception:
+            pass
         env = dict(os.environ)
         # the driver first: it depends on Model/Spec/Gen only
         r = subprocess.run(["lake", "build", "motodrv"], cwd=LEAN, capture_output=True, text=True, env=env)
